@@ -107,6 +107,7 @@ TEMPLATE_FILES += [
     ({"main.json": {"title": "string", "type": "object", "properties": {"s": {"type": "string"}}}}, "main.json"),
     ({"main.json": {"title": "Sq", "type": "object", "properties": {"a\u00b2": {"type": "string"}}}}, "main.json"),
     ({"main.json": {"title": "Doc", "type": "object", "description": 'ends with a quote"'}}, "main.json"),
+    ({"main.json": {"type": "object", "title": "T", "properties": {"p": {"oneOf": [False], "default": 2}}}}, "main.json"),
 ]
 
 
@@ -161,6 +162,10 @@ def run(tier, seed, replay=None):
         fid = known_name_issue(classes, files[entry])
         if fid is None and unsafe_doc(classes):
             fid = "C02-K4"
+        if fid is None:
+            from props.c06 import nothing_with_default
+            if nothing_with_default(classes):
+                fid = "C02-K5"
         try:
             with common.time_limit(60):
                 text = generate(path + "#/")
